@@ -336,15 +336,18 @@ with pr_ast (a : ast) : list tok :=
   | ASlice o s e st => [K_Slice; print_nat o; print_optint s; print_optint e; print_int st]
   end.
 
-(* ---------- error coordinates: [JmespathError::new] ([errors.rs:25-45]) ---------- *)
-(** The code iterates over [expr.chars().take(offset)], i.e. it treats the byte
-    offset as a number of characters. *)
-Fixpoint line_col_go (cs : str) (n : nat) (line col : Z) : Z * Z :=
-  match n, cs with
-  | O, _ | _, [] => (line, col)
-  | S n', c :: cs' => if c =? 10 then line_col_go cs' n' (line + 1) 0 else line_col_go cs' n' line (col + 1)
+(* ---------- error coordinates: [JmespathError::new] ([errors.rs:25-50]) ---------- *)
+(** The code walks [expr.char_indices()] and stops at the first character whose
+    byte position is not below the (byte) offset. *)
+Fixpoint line_col_go (cs : str) (pos offset : Z) (line col : Z) : Z * Z :=
+  match cs with
+  | [] => (line, col)
+  | c :: cs' =>
+      if pos >=? offset then (line, col)
+      else if c =? 10 then line_col_go cs' (pos + utf8_len c) offset (line + 1) 0
+      else line_col_go cs' (pos + utf8_len c) offset line (col + 1)
   end.
-Definition line_col (expr : str) (offset : Z) : Z * Z := line_col_go expr (Z.to_nat offset) 0 0.
+Definition line_col (expr : str) (offset : Z) : Z * Z := line_col_go expr 0 offset 0 0.
 
 Definition K_OK := Eval compute in s2l "OK".
 Definition K_ERR := Eval compute in s2l "ERR".
